@@ -350,25 +350,65 @@ func H_C02_comment() {
 }
 
 // H_C02_refgraph: GetTemplate over a set of two templates whose extends/import targets
-// are symbolic choices among {self, the other, a missing file}: returns (no crash, no
-// unbounded recursion).
+// are symbolic choices among {self, the other, a missing file, a leaf}: returns (no crash,
+// no unbounded recursion), with a template exactly when the chain ends in the leaf, with an
+// error when it ends in a missing file or comes back to a template already on the chain.
 //
 //gosym:reach returned
 //gosym:opts maxviol=1000
 func H_C02_refgraph() {
-	targets := []string{"/a.jet", "/b.jet", "/missing.jet"}
+	targets := []string{"/a.jet", "/b.jet", "/missing.jet", "/leaf.jet"}
 	kw := []string{"extends", "import"}
 	l := NewInMemLoader()
-	ta := ndChoice("a.target", 3)
-	tb := ndChoice("b.target", 3)
+	ta := ndChoice("a.target", 4)
+	tb := ndChoice("b.target", 4)
 	ka := ndChoice("a.kw", 2)
 	kb := ndChoice("b.kw", 2)
 	l.Set("/a.jet", "{{"+kw[ka]+" \""+targets[ta]+"\"}}A")
 	l.Set("/b.jet", "{{"+kw[kb]+" \""+targets[tb]+"\"}}B")
+	l.Set("/leaf.jet", "L")
 	set := NewSet(l)
 	t, err := set.GetTemplate("/a.jet")
 	vfReach("returned")
 	vfAssert(err != nil || (t != nil && t.Root != nil), "a usable template or an error")
+	// the reference chain from /a.jet ends in the leaf (fine), in a missing file, or in a
+	// template already on the chain (a cycle): only the first is loadable
+	fine := ta == 3 || (ta == 1 && tb == 3)
+	vfAssert((err == nil) == fine, "a chain that ends in an existing template loads; a missing target or a cycle is an error")
+	vfAssert(vfLive() == 0, "no goroutine is left running")
+	// asking again gives the same answer
+	_, err2 := set.GetTemplate("/a.jet")
+	vfAssert((err2 == nil) == fine, "... also when asked again")
+}
+
+// H_C02_diamond: shared dependencies are not cycles: /a imports /b and /c (or extends one
+// and imports the other), both of which import / extend /d, and /a may import /d itself as
+// well: loads, and a block of /d is available in /a.
+//
+//gosym:reach loaded
+func H_C02_diamond() {
+	kb, kc := ndChoice("b.kw", 2), ndChoice("c.kw", 2)
+	ea := ndBool("a.extendsB")
+	direct := ndBool("a.importsD")
+	kw := []string{"extends", "import"}
+	l := NewInMemLoader()
+	a := ""
+	if ea {
+		a = `{{ extends "/b.jet" }}{{ import "/c.jet" }}`
+	} else {
+		a = `{{ import "/b.jet" }}{{ import "/c.jet" }}`
+	}
+	if direct {
+		a += `{{ import "/d.jet" }}`
+	}
+	l.Set("/a.jet", a+`{{ block own() }}{{ yield dblock() }}{{ end }}`)
+	l.Set("/b.jet", `{{ `+kw[kb]+` "/d.jet" }}{{ block bb() }}{{ yield dblock() }}{{ end }}`)
+	l.Set("/c.jet", `{{ `+kw[kc]+` "/d.jet" }}{{ block cc() }}C{{ end }}`)
+	l.Set("/d.jet", `{{ block dblock() }}D{{ end }}`)
+	set := NewSet(l)
+	t, err := set.GetTemplate("/a.jet")
+	vfReach("loaded")
+	vfAssert(err == nil && t != nil && t.Root != nil, "a dependency shared by two templates is not a cycle")
 	vfAssert(vfLive() == 0, "no goroutine is left running")
 }
 
